@@ -65,6 +65,14 @@ func parseTagAndLength(bytes []byte) (r tagAndLen, off int, e error) {
 }
 
 func parseBitString(bytes []byte) (r BitString, e error) {
+	if len(bytes) == 0 {
+		e = fmt.Errorf("zero length BIT STRING")
+		return r, e
+	}
+	if bytes[0] > 7 || (len(bytes) == 1 && bytes[0] != 0) {
+		e = fmt.Errorf("invalid number of unused bits in BIT STRING")
+		return r, e
+	}
 	r.BitLength = uint64((len(bytes)-1)*8 - int(bytes[0]))
 	r.Bytes = bytes[1:]
 	return
